@@ -254,7 +254,7 @@ fn apply_mut(img: &mut [u8], f: &HField, val: u128) {
 impl Engine for Decode {
     const NAME: &'static str = "decode";
 
-    fn run(&self, s: &dyn ShapeDyn, args: &Args) -> Accs {
+    fn run(&self, s: &'static dyn ShapeDyn, args: &Args) -> Accs {
         let id = s.id();
         let d = s.desc();
         let align = d.align();
@@ -526,7 +526,7 @@ impl Engine for Decode {
         m
     }
 
-    fn replay(&self, s: &dyn ShapeDyn, case: &serde_json::Value) -> bool {
+    fn replay(&self, s: &'static dyn ShapeDyn, case: &serde_json::Value) -> bool {
         let id = s.id();
         let d = s.desc();
         let bytes = unhex(case["bytes"].as_str().unwrap());
